@@ -79,7 +79,7 @@ func (e *Exec) execSimple(st *State, fr *Frame, instr ssa.Instruction) {
 		vt, ok := t.(VTuple)
 		if !ok || in.Index >= len(vt.E) {
 			e.unsupported(fmt.Sprintf("extract from non-tuple %T", t))
-			fr.Vals[in] = e.materialize(e.fresh("extract", BoolSort).S, in.Type())
+			fr.Vals[in] = e.materialize(e.freshName("extract"), in.Type())
 			return
 		}
 		fr.Vals[in] = vt.E[in.Index]
@@ -103,7 +103,7 @@ func (e *Exec) execSimple(st *State, fr *Frame, instr ssa.Instruction) {
 	case *ssa.Index:
 		// index of array value or string
 		e.unsupported("Index on array/string value")
-		fr.Vals[in] = e.materialize(e.fresh("index", BoolSort).S, in.Type())
+		fr.Vals[in] = e.materialize(e.freshName("index"), in.Type())
 	case *ssa.Slice:
 		e.sliceOp(st, fr, in)
 	case *ssa.MakeSlice:
@@ -150,7 +150,7 @@ func (e *Exec) execSimple(st *State, fr *Frame, instr ssa.Instruction) {
 	default:
 		e.unsupported(fmt.Sprintf("instruction %T", instr))
 		if v, ok := instr.(ssa.Value); ok {
-			fr.Vals[v] = e.materialize(e.fresh("unk", BoolSort).S, v.Type())
+			fr.Vals[v] = e.materialize(e.freshName("unk"), v.Type())
 		}
 	}
 }
@@ -420,7 +420,7 @@ func (e *Exec) unop(st *State, fr *Frame, in *ssa.UnOp) Value {
 		p, ok := x.(VPtr)
 		if !ok {
 			e.unsupported("load through non-pointer")
-			return e.materialize(e.fresh("load", BoolSort).S, in.Type())
+			return e.materialize(e.freshName("load"), in.Type())
 		}
 		e.safe(st, in, "nil", Not(p.Nil))
 		if p.Loc == nil {
@@ -446,9 +446,9 @@ func (e *Exec) unop(st *State, fr *Frame, in *ssa.UnOp) Value {
 		// channel receive: result is havoc; recorded as a blocking effect
 		st.Effects = append(st.Effects, "blocking-recv")
 		if in.CommaOk {
-			return VTuple{E: []Value{e.materialize(e.fresh("recv", BoolSort).S, in.Type().(*types.Tuple).At(0).Type()), VBool{e.fresh("recvok", BoolSort)}}}
+			return VTuple{E: []Value{e.materialize(e.freshName("recv"), in.Type().(*types.Tuple).At(0).Type()), VBool{e.fresh("recvok", BoolSort)}}}
 		}
-		return e.materialize(e.fresh("recv", BoolSort).S, in.Type())
+		return e.materialize(e.freshName("recv"), in.Type())
 	}
 	e.unsupported(fmt.Sprintf("unop %s on %T", in.Op, x))
 	return x
@@ -541,7 +541,7 @@ func (e *Exec) convert(st *State, v Value, from, to types.Type) Value {
 		}
 		if s, ok := v.(VStr); ok {
 			// []byte(string): fresh region with symbolic contents
-			name := e.fresh("bytesOf", BoolSort).S
+			name := e.freshName("bytesOf")
 			if s.Lit != nil {
 				return e.bytesOfLiteral(st, *s.Lit)
 			}
@@ -549,7 +549,7 @@ func (e *Exec) convert(st *State, v Value, from, to types.Type) Value {
 		}
 	}
 	e.unsupported(fmt.Sprintf("convert %s -> %s (%T)", from, to, v))
-	return e.materialize(e.fresh("conv", BoolSort).S, to)
+	return e.materialize(e.freshName("conv"), to)
 }
 
 func (e *Exec) bytesOfLiteral(st *State, s string) Value {
@@ -614,7 +614,7 @@ func (e *Exec) typeAssert(st *State, in *ssa.TypeAssert, v Value) Value {
 			nv.Typ = at
 			return mkRes(And(Not(x.Nil), ok), nv)
 		}
-		return mkRes(And(Not(x.Nil), ok), e.materialize(e.fresh("asserted", BoolSort).S, at))
+		return mkRes(And(Not(x.Nil), ok), e.materialize(e.freshName("asserted"), at))
 	case VErr:
 		ok := e.fresh("assertok", BoolSort)
 		if dt, have := e.errDyn[x.T.S]; have {
@@ -624,10 +624,10 @@ func (e *Exec) typeAssert(st *State, in *ssa.TypeAssert, v Value) Value {
 				ok = False
 			}
 		}
-		return mkRes(And(Ne(x.T, BVConst(32, 0)), ok), e.materialize(e.fresh("asserted", BoolSort).S, at))
+		return mkRes(And(Ne(x.T, BVConst(32, 0)), ok), e.materialize(e.freshName("asserted"), at))
 	}
 	e.unsupported(fmt.Sprintf("type assertion on %T", v))
-	return mkRes(e.fresh("assertok", BoolSort), e.materialize(e.fresh("asserted", BoolSort).S, at))
+	return mkRes(e.fresh("assertok", BoolSort), e.materialize(e.freshName("asserted"), at))
 }
 
 func (e *Exec) indexAddr(st *State, fr *Frame, in *ssa.IndexAddr) {
